@@ -811,47 +811,6 @@ func vbDumpV(v reflect.Value, b *strings.Builder, depth int) {
 	}
 }
 
-// vbMutateRA scribbles over everything reachable from a returned RA: header fields, the option slice,
-// and the contents of every option (slices element-wise, so that an aliased backing array shows).
-func vbMutateRA(ra *ndp.RouterAdvertisement) {
-	bad := netip.MustParseAddr("2001:db8:dead:beef::bad")
-	for _, o := range ra.Options {
-		switch o := o.(type) {
-		case *ndp.PrefixInformation:
-			o.PrefixLength, o.ValidLifetime, o.PreferredLifetime, o.Prefix = 1, 7, 7, bad
-			o.OnLink, o.AutonomousAddressConfiguration = !o.OnLink, !o.AutonomousAddressConfiguration
-		case *ndp.RouteInformation:
-			o.PrefixLength, o.RouteLifetime, o.Prefix, o.Preference = 1, 7, bad, ndp.Low
-		case *ndp.RecursiveDNSServer:
-			o.Lifetime = 7
-			for i := range o.Servers {
-				o.Servers[i] = bad
-			}
-		case *ndp.DNSSearchList:
-			o.Lifetime = 7
-			for i := range o.DomainNames {
-				o.DomainNames[i] = "mutated.invalid"
-			}
-		case *ndp.MTU:
-			o.MTU = 7
-		case *ndp.LinkLayerAddress:
-			for i := range o.Addr {
-				o.Addr[i] ^= 0xff
-			}
-		case *ndp.CaptivePortal:
-			o.URI = "mutated:invalid"
-		case *ndp.PREF64:
-			o.Lifetime, o.Prefix = 7, netip.PrefixFrom(bad, 96)
-		}
-	}
-	for i := range ra.Options {
-		ra.Options[i] = &ndp.MTU{MTU: 7}
-	}
-	ra.Options = append(ra.Options, &ndp.MTU{MTU: 8})
-	ra.CurrentHopLimit, ra.RouterLifetime, ra.ReachableTime, ra.RetransmitTimer = 7, 7, 7, 7
-	ra.ManagedConfiguration, ra.OtherConfiguration = !ra.ManagedConfiguration, !ra.OtherConfiguration
-}
-
 // vbWireRoutes extracts, from a marshalled ICMPv6 RA, the prefix bytes of every Route Information
 // option (type 24), zero-extended to 128 bits.
 func vbWireRoutes(b []byte) []string {
